@@ -304,12 +304,16 @@ func (w *World) ChannelLength(n, ch int) {
 
 func driveZero(s *shardSet, rng *rand.Rand, thorough bool) ([]string, map[string]int) {
 	types := typesFor(thorough)
-	shapes := [][3]int{{0, 0, 0}, {0, 2, 3}, {0, 0, 3}, {2, 0, 0}, {3, 0, 4}, {1, 0, 0}, {2, 0, 2}}
+	// (the last three: zero capacity with a positive length - with channels the request is inconsistent and Alloc must
+	// refuse it; it must never produce a buffer that holds samples)
+	shapes := [][3]int{{0, 0, 0}, {0, 2, 3}, {0, 0, 3}, {2, 0, 0}, {3, 0, 4}, {1, 0, 0}, {2, 0, 2}, {0, 2, 0}, {1, 1, 0}, {2, 3, 0}}
 	for _, ty := range types {
 		for _, sh := range shapes {
 			w := s.Next()
 			w.Reset()
-			w.Alloc(ty, sh[0], sh[1], sh[2])
+			if w.Alloc(ty, sh[0], sh[1], sh[2]) != "ok" {
+				continue
+			}
 			z := 0
 			kt := KindOf(ty)
 			exercise := func(z int) {
@@ -458,6 +462,70 @@ func driveExtremes(s *shardSet, rng *rand.Rand, thorough bool) {
 			w.Append(d, root)
 			w.Append(d, root)
 			w.Read(d, kt, w.Views[d].Len())
+		}
+	}
+}
+
+// driveBlind: short directed histories over several small and one larger buffer of one element type during which the
+// harness never looks at any contents (World.Blind); one Observe at the end compares every view. The FIRST operation
+// a fresh buffer sees is, in turn, each of the operations that store samples (a buffer append that fits, one that
+// grows, a sample append, an indexed store, a bulk and a striped write, a store through a channel view, being the
+// destination of a conversion), while other fresh buffers of the same type exist and more are allocated afterwards.
+func driveBlind(s *shardSet, rng *rand.Rand, thorough bool) {
+	first := []string{"AppendFits", "AppendGrows", "AppendSample", "SetSample", "Write", "WriteStriped", "ChanSet", "Convert", "Slice"}
+	for ti, ty := range typesFor(thorough) {
+		kt := KindOf(ty)
+		for fi, f := range first {
+			if !thorough && (ti+fi)%3 != 0 {
+				continue
+			}
+			ch := 1 + (ti+fi)%3
+			w := s.Next()
+			w.Reset()
+			w.NoObs, w.Blind = true, true
+			k := 2 + rng.Intn(4)
+			w.Alloc(ty, ch, 1, k) // 0: the buffer under test (one frame long, k frames of capacity)
+			w.Alloc(ty, ch, 2, k) // 1: an untouched neighbour
+			w.Alloc(ty, ch, 1, 1) // 2: source
+			w.Write(2, kt, w.stamps(ch))
+			w.Alloc(ty, ch, 100, 200) // 3: a large untouched buffer
+			switch f {
+			case "AppendFits":
+				w.Append(0, 2)
+			case "AppendGrows":
+				for i := 0; i < k; i++ {
+					w.Append(0, 2)
+				}
+			case "AppendSample":
+				w.AppendSample(0, w.NextStamp())
+			case "SetSample":
+				w.SetSample(0, 0, w.NextStamp())
+			case "Write":
+				w.Write(0, kt, w.stamps(ch))
+			case "WriteStriped":
+				rows := make([][]int64, ch)
+				for c := range rows {
+					rows[c] = w.stamps(1)
+				}
+				w.WriteStriped(0, kt, rows, make([]bool, ch))
+			case "ChanSet":
+				w.ChanSet(0, ch-1, 0, w.NextStamp())
+			case "Convert":
+				if fn := convFor(rng, kt, kt); fn != "" && ty == kt {
+					w.Convert(fn, 2, 0)
+				} else {
+					w.SetSample(0, 0, w.NextStamp())
+				}
+			case "Slice":
+				w.Slice(0, 0, k)
+				w.SetSample(len(w.Views)-1, ch*k-1, w.NextStamp())
+			}
+			w.Alloc(ty, ch, 2, 2)   // allocated after the store: must be zero
+			w.Alloc(ty, 1, 3, 64)   // and one whose total capacity is exactly 64 samples
+			w.Append(1, 2)          // the neighbour's first operation
+			w.Alloc(ty, ch, 1, k+1) // another fresh one
+			w.NoObs, w.Blind = false, false
+			w.Observe()
 		}
 	}
 }
